@@ -12,7 +12,30 @@ import traceback
 
 VERIF = os.path.dirname(os.path.dirname(os.path.abspath(__file__)))
 BUILD = os.path.join(VERIF, '.build')
-DRV = os.path.join(VERIF, 'drv')
+REPO = os.path.abspath(os.environ.get('VERIF_REPO', '/repo'))
+if REPO != '/repo':
+    # a copy of the repository (seed sweeps in the background): own build directory, driver crates
+    # copied with their path dependency redirected
+    BUILD = os.path.join(VERIF, '.build-' + hashlib.sha1(REPO.encode()).hexdigest()[:8])
+
+
+def crate_dir(name):
+    """the driver crate `name` (drv, bs, kani); with VERIF_REPO set, a copy whose path dependency
+    points at that tree"""
+    src = os.path.join(VERIF, name)
+    if REPO == '/repo':
+        return src
+    import shutil
+    dst = os.path.join(BUILD, 'crates', name)
+    shutil.copytree(src, dst, dirs_exist_ok=True, ignore=shutil.ignore_patterns('target', 'Cargo.lock'))
+    t = open(os.path.join(src, 'Cargo.toml')).read().replace('path = "/repo"', 'path = "%s"' % REPO)
+    old = open(os.path.join(dst, 'Cargo.toml')).read() if os.path.exists(os.path.join(dst, 'Cargo.toml')) else ''
+    if old != t:
+        open(os.path.join(dst, 'Cargo.toml'), 'w').write(t)
+    return dst
+
+
+DRV = crate_dir('drv')
 RUSTFLAGS = "--emit=llvm-ir -C no-vectorize-loops -C no-vectorize-slp"
 
 PROFILES = {'dev-like': ('release', ['--release']), 'rel-like': ('rel', ['--profile', 'rel'])}
@@ -36,7 +59,7 @@ def build_drv(profile='dev-like', quiet=True):
     lock = os.path.join(DRV, 'Cargo.lock')
     if not os.path.exists(lock):
         import shutil
-        shutil.copy('/repo/Cargo.lock', lock)
+        shutil.copy(os.path.join(REPO, 'Cargo.lock'), lock)
     t0 = time.time()
     r = sh(['cargo', 'build', '--offline'] + flags, cwd=DRV, env=env)
     if r.returncode != 0:
